@@ -29,9 +29,9 @@ func init() {
 				Blocks:   32,
 				Procs:    16,
 				Rule: "case = (key type and comparator: int natural, int reversed via NewFunc, string natural, string case-folding via NewFunc; universe size; history of Set/Delete/Clear through the map and through a copy of it). " +
-					"After EVERY mutation: Len, Get/GetOK (all keys of small universes, sampled otherwise), Keys, String (exact comparators), First->Next sweep to the end, Last->Prev sweep to the start, Seek(k) for every k in [min-2,max+2] (sampled for large universes) followed by Next-steps and Prev-steps, re-Seek of an already positioned iterator to each kind of target, Key/Value of invalid iterators; periodically the delete-while-iterating idiom with re-Seek after each Delete; histories drain below 1/8 of their peak to reach the delete-side rebuild. Sparse-observation histories: maps of 100..1000 keys, operations chosen with locality (neighbouring keys), only the results of Set/Delete/GetOK themselves checked and nothing read in between (state carried from call to call is not disturbed by the monitor), full comparison every 400 operations. Very large maps: 262 145..400 000 keys (3.6 M thorough, where a one-sided path at the fixed balance factor passes 32 levels) inserted in descending, ascending and shuffled order, read back completely, half deleted, read again. Zero Map: every documented read-only method. String-valued maps whose keys and values are awkward strings (blanks at either end, the separators String writes, format verbs, empty), String/Keys/iterators/GetOK compared after every operation. " +
+					"After EVERY mutation: Len, Get/GetOK (all keys of small universes, sampled otherwise), Keys, String (exact comparators), First->Next sweep to the end, Last->Prev sweep to the start, Seek(k) for every k in [min-2,max+2] (sampled for large universes) followed by Next-steps and Prev-steps, re-Seek of an already positioned iterator to each kind of target, Key/Value of invalid iterators; periodically the delete-while-iterating idiom with re-Seek after each Delete; histories drain below 1/8 of their peak to reach the delete-side rebuild. Sparse-observation histories: maps of 100..1000 keys, operations chosen with locality (neighbouring keys), only the results of Set/Delete/GetOK themselves checked and nothing read in between (state carried from call to call is not disturbed by the monitor), full comparison every 400 operations. Very large maps: 262 145..400 000 keys (3.6 M thorough, where a one-sided path at the fixed balance factor passes 32 levels) inserted in descending, ascending and shuffled order, read back completely, half deleted, read again. One shared map with no writer read by 8 goroutines at once (GetOK, Len, Seek with Next/Prev steps, First, Last). Zero Map: every documented read-only method. String-valued maps whose keys and values are awkward strings (blanks at either end, the separators String writes, format verbs, empty), String/Keys/iterators/GetOK compared after every operation. " +
 					"distinct = hash(comparator, universe, ops); non-trivial = the history performed seeks to all four target kinds (present, absent inside, below minimum, above maximum) and at least one Delete of a present key",
-				Required:     []string{"steps", "seek_present", "seek_absent_inside", "seek_below_min", "seek_above_max", "reseek_past_end", "iter_edit_idiom_runs", "deep_drains", "zero_map_checks", "copy_shares_checks", "prev_from_seek", "kept_iterator_reseeks", "float_key_maps", "sparse_observation_histories", "string_value_steps", "very_large_maps"},
+				Required:     []string{"steps", "seek_present", "seek_absent_inside", "seek_below_min", "seek_above_max", "reseek_past_end", "iter_edit_idiom_runs", "deep_drains", "zero_map_checks", "copy_shares_checks", "prev_from_seek", "kept_iterator_reseeks", "float_key_maps", "sparse_observation_histories", "string_value_steps", "very_large_maps", "shared_reader_rounds"},
 				Assumptions:  []string{"reference model: sorted slice of pairs; keys are compared with the map's own comparator (stored key spelling under a case-folding comparator is not constrained)"},
 				CoverPkgs:    []string{"github.com/creachadair/mds/omap", "github.com/creachadair/mds/stree"},
 				CoverAnchors: []string{"omap/omap.go", "stree/stree.go:InorderAfter", "stree/node.go:inorderAfter", "stree/stree.go:Cursor", "stree/stree.go:Replace", "stree/stree.go:Remove", "stree/cursor.go:Next", "stree/cursor.go:Prev", "stree/cursor.go:findNext", "stree/cursor.go:findPrev"},
@@ -752,6 +752,16 @@ func runC04(c *fw.Ctx) {
 			c.FailKind("panic", map[string]any{"map": "omap.New[int,int]", "keys": n}, "panic: %v\n%s", pv, stack)
 		}
 	}
+	for k := 0; k < c.Pick(4, 40); k++ {
+		if !c.Begin(1<<23 + k) {
+			continue
+		}
+		r := c.Rng()
+		ok, pv, stack := fw.Try(func() { c04sharedReaders(c, r) })
+		if !ok {
+			c.FailKind("panic", map[string]any{"phase": "shared readers"}, "panic: %v\n%s", pv, stack)
+		}
+	}
 	ncases := c.Pick(15, 300)
 	for i := 0; i < ncases; i++ {
 		if !c.Begin(i) {
@@ -897,4 +907,68 @@ func c04values(c *fw.Ctx, r *rand.Rand) {
 		}
 		c.Add("string_value_steps", 1)
 	}
+}
+
+// c04sharedReaders: one map, no writer, eight goroutines that only read it
+// (Get, GetOK, Len, Seek followed by Next/Prev steps, First, Last) and verify
+// every answer against the key set.
+func c04sharedReaders(c *fw.Ctx, r *rand.Rand) {
+	n := []int{3, 40, 700, 20000}[r.IntN(4)]
+	m := omap.New[int, int]()
+	for _, k := range r.Perm(n) {
+		m.Set(3*k, k)
+	}
+	for k := 0; k < n; k += 7 {
+		m.Delete(3 * k)
+	}
+	var keys []int
+	for k := 0; k < n; k++ {
+		if k%7 != 0 {
+			keys = append(keys, 3*k)
+		}
+	}
+	if len(keys) == 0 {
+		return
+	}
+	msg := concurrently(8, r.Uint64(), func(g int, lr *rand.Rand) string {
+		for it := 0; it < 400; it++ {
+			i := lr.IntN(len(keys))
+			k := keys[i]
+			switch lr.IntN(4) {
+			case 0:
+				if v, ok := m.GetOK(k); !ok || v != k/3 || m.Get(k+1) != 0 || m.Len() != len(keys) {
+					return fmt.Sprintf("goroutine %d (readers only): GetOK(%d)=(%d,%v) Len=%d", g, k, v, ok, m.Len())
+				}
+			case 1:
+				it := m.Seek(k - 1) // first key >= k-1 is k
+				for d := 0; d < 6 && i+d < len(keys); d++ {
+					if !it.IsValid() || it.Key() != keys[i+d] || it.Value() != keys[i+d]/3 {
+						return fmt.Sprintf("goroutine %d (readers only): Seek(%d) then %d x Next is at %d (valid=%v), want %d", g, k-1, d, it.Key(), it.IsValid(), keys[i+d])
+					}
+					it.Next()
+				}
+			case 2:
+				it := m.Seek(k)
+				for d := 0; d < 6 && i-d >= 0; d++ {
+					if !it.IsValid() || it.Key() != keys[i-d] {
+						return fmt.Sprintf("goroutine %d (readers only): Seek(%d) then %d x Prev is at %d (valid=%v), want %d", g, k, d, it.Key(), it.IsValid(), keys[i-d])
+					}
+					it.Prev()
+				}
+			default:
+				if f, l := m.First(), m.Last(); !f.IsValid() || f.Key() != keys[0] || !l.IsValid() || l.Key() != keys[len(keys)-1] {
+					return fmt.Sprintf("goroutine %d (readers only): First/Last at %d/%d, want %d/%d", g, f.Key(), l.Key(), keys[0], keys[len(keys)-1])
+				}
+				if it := m.Seek(keys[len(keys)-1] + 1); it.IsValid() {
+					return fmt.Sprintf("goroutine %d (readers only): Seek beyond the largest key is valid at %d", g, it.Key())
+				}
+			}
+			c.Step()
+		}
+		return ""
+	})
+	if msg != "" {
+		c.Fail(map[string]any{"map": "omap.New[int,int]", "keys": len(keys), "phase": "one shared map, no writer, 8 goroutines that only read it"}, "%s", msg)
+	}
+	c.Add("shared_reader_rounds", 1)
 }
